@@ -440,6 +440,8 @@ impl Gen {
                 let s: Vec<String> = p.iter().map(|v| v.to_string()).collect();
                 if p.len() >= 2 {
                     self.emit(format!("ORDER m{m} {}", s.join(" ")));
+                    // both directions of the variable/level permutation, C versus Rust, right away
+                    self.emit(format!("COUNTS m{m}"));
                 }
             }
             92..=93 => {
